@@ -21,7 +21,7 @@ impl<V: Clone> Slot<V> { fn map(&self) -> HashMap<u8, V> { match self { Slot::Ma
 
 #[derive(Clone, Debug)]
 pub enum Op { Read(u8), Insert(u8, u8), WriterGet(u8), WriterGetMutSet(u8, u8), EntryOrInsert(u8, u8), EntryRemove(u8), DirectInsert(u8, u8), DirectRemove(u8),
-              SetU32(u32), SetStr(u8), GetU32, GetStr, GetMap, GetMutU32Add, DefaultU32, DefaultStrPush, Checker(u8) }
+              SetU32(u32), SetStr(u8), GetU32, GetStr, GetMap, GetMutU32Add, DefaultU32, DefaultStrPush, Checker(u8), /** check against a given stamp, without stamping first */ CheckOnly(u8, Option<u8>) }
 
 pub trait ValOf: Sized + Clone + PartialEq + std::fmt::Debug + 'static { fn of(x: u8) -> Self; }
 impl ValOf for u8 { fn of(x: u8) -> u8 { x } }
@@ -87,6 +87,13 @@ fn apply<K, F>(pie: &mut Pie<()>, mk: F, slot: &mut Slot<K::Value>, op: &Op, who
     Op::DefaultStrPush => { let s = state.get_or_set_default_mut::<String>(); s.push('x'); let got = s.clone();
       let exp = if let Slot::Str(x) = slot { x.push('x'); x.clone() } else { *slot = Slot::Str("x".to_string()); "x".to_string() };
       if got != exp { fail!("C14.bounded.get_or_set_default_keeps_a_matching_state_else_default", "{}: get_or_set_default_mut::<String>() then push = {:?}, expected {:?}", who, got, exp); } }
+    Op::CheckOnly(k, st) => {
+      let key = mk(*k); let c = MapEqualsChecker;
+      let cur = slot.map().get(k).cloned(); let stamp = st.map(K::Value::of);
+      let verdict = c.check(&key, state, &stamp).unwrap().is_none();
+      touch_map(slot);
+      if verdict != (cur == stamp) { fail!("C14.bounded.check_consistent_iff_current_equals_stamp", "{}: key {}: current {:?}, stamp {:?}: check says consistent = {}", who, k, cur, stamp, verdict); }
+    }
     Op::Checker(k) => {
       let key = mk(*k); let c = MapEqualsChecker;
       let cur = slot.map().get(k).cloned();
@@ -111,10 +118,10 @@ impl Rng { fn next(&mut self) -> u64 { self.0 ^= self.0 << 13; self.0 ^= self.0 
 pub fn gen(rng: &mut Rng, len: usize) -> Vec<(bool, Op)> {
   (0..len).map(|_| {
     let k = rng.below(3) as u8; let v = 1 + rng.below(4) as u8;
-    let op = match rng.below(20) {
+    let op = match rng.below(22) {
       0 | 1 => Op::Read(k), 2 | 3 => Op::Insert(k, v), 4 => Op::WriterGet(k), 5 => Op::WriterGetMutSet(k, v), 6 => Op::EntryOrInsert(k, v), 7 => Op::EntryRemove(k),
       8 => Op::DirectInsert(k, v), 9 => Op::DirectRemove(k), 10 => Op::SetU32(v as u32), 11 => Op::SetStr(v), 12 => Op::GetU32, 13 => Op::GetStr, 14 => Op::GetMap,
-      15 => Op::GetMutU32Add, 16 => Op::DefaultU32, 17 => Op::DefaultStrPush, _ => Op::Checker(k) };
+      15 => Op::GetMutU32Add, 16 => Op::DefaultU32, 17 => Op::DefaultStrPush, 18 | 19 => Op::CheckOnly(k, if rng.below(3) == 0 { None } else { Some(v) }), _ => Op::Checker(k) };
     (rng.below(2) == 0, op)
   }).collect()
 }
